@@ -884,6 +884,16 @@ impl<'p> Model<'p> {
         }
     }
 
+    /// after a failed chunk: the program is abandoned - its open calls and loops are gone - and the data stack is
+    /// whatever the failing word left (given by the caller, already checked against `stack_before` / arity)
+    pub fn recover(&mut self, stack: Vec<V>) {
+        self.stack = stack;
+        self.loops.clear();
+        self.frames.clear();
+        self.infinite_depth = 0;
+        self.outcome = Outcome::Done;
+    }
+
     pub fn loops_empty(&self) -> bool {
         self.loops.is_empty()
     }
